@@ -22,6 +22,13 @@ def live (s : Sess) : List Node := s.nodes.filter isLive
 /-- no surviving instance refers to an instance marked deleted (otherwise the saved population is not closed) -/
 def ClosedLive (s : Sess) : Prop := ∀ n ∈ live s, ∀ r ∈ n.inst.refs, r ∈ ids (live s)
 
+/-- the number of instances marked deleted stays within what pass 1 tolerates: on this tree every skipped `D` entry counts as a
+    record that yielded no instance (`Generated.deletedCountsAsFailure`) and pass 1 is abandoned beyond
+    `Generated.maxErrorCount` (100000) of them — see `C16_too_many_deleted_witness`; vacuous once they are not counted
+    (`delBound_of_not_counted`) -/
+def DelBound (s : Sess) : Prop :=
+  (if deletedCountsAsFailure then (s.nodes.filter (fun n => !isLive n)).length else 0) ≤ maxErrorCount
+
 def toEntry (n : Node) : Entry := ⟨writeLetterOf n.state, n.inst⟩
 
 /-! ### the regenerated letter tables invert each other -/
@@ -102,9 +109,36 @@ theorem ids_filter_sublist (ns : List Node) (p : Node → Bool) : (ids (ns.filte
 theorem mem_ids_of_filter {ns : List Node} {p : Node → Bool} {x : Int} (h : x ∈ ids (ns.filter p)) : x ∈ ids ns :=
   (ids_filter_sublist ns p).subset h
 
+theorem skipped_count_toEntry (ns : List Node) (h : ∀ n ∈ ns, n.state ≠ .noState) :
+    ((ns.map toEntry).filter (skipped .working)).length = (ns.filter (fun n => !isLive n)).length := by
+  induction ns with
+  | nil => rfl
+  | cons n ns ih =>
+    have hn := h n (by simp)
+    have ih' := ih (fun x hx => h x (by simp [hx]))
+    simp only [List.map_cons, List.filter_cons, skipped_toEntry n hn]
+    cases isLive n <;> simp [ih']
+
+theorem cntSkipped_toEntry (ns : List Node) (h : ∀ n ∈ ns, n.state ≠ .noState) :
+    cntSkipped .working (ns.map toEntry) = (if deletedCountsAsFailure then (ns.filter (fun n => !isLive n)).length else 0) := by
+  unfold cntSkipped
+  rw [skipped_count_toEntry ns h]
+
+/-- once deleted entries are no longer counted (repair C16-1) the bound holds for every session -/
+theorem delBound_of_not_counted {s : Sess} (h : deletedCountsAsFailure = false) : DelBound s := by
+  unfold DelBound; rw [h]; exact Nat.zero_le _
+
+theorem delBound_of_no_deleted {s : Sess} (h : ∀ n ∈ s.nodes, n.state ≠ .delete) : DelBound s := by
+  unfold DelBound
+  have : s.nodes.filter (fun n => !isLive n) = [] := by
+    rw [List.filter_eq_nil_iff]
+    intro n hn
+    simp [isLive, h n hn]
+  rw [this]; split <;> exact Nat.zero_le _
+
 /-- the session a working-session read of `writeWorking s` produces -/
 theorem readWorking_spec (fill : Inst → Inst) (hfill : FillOk fill) (asev : Inst → Sev) (s : Sess)
-    (hs : Inv s) (hn : NoNoState s) (hc : ClosedLive s) :
+    (hs : Inv s) (hn : NoNoState s) (hc : ClosedLive s) (hd : DelBound s) :
     (readWorking fill asev (writeWorking s)).nodes = (live s).map (fun n => ⟨fill n.inst, n.state⟩) ∧
     (readWorking fill asev (writeWorking s)).maxId = maxWith cleared.maxId (ids (live s)) := by
   rw [writeWorking_eq hn]
@@ -120,6 +154,7 @@ theorem readWorking_spec (fill : Inst → Inst) (hfill : FillOk fill) (asev : In
       have := hs.pos x (mem_ids_of_filter hx)
       show x ≠ 0
       omega)
+    (by rw [cntSkipped_toEntry s.nodes hn]; exact hd)
   rw [hkept, fids_zero] at h1
   have h2 := pass2_spec .working fill asev 0 (pass1 .working 0 cleared (s.nodes.map toEntry)).maxId hfill.id_eq rfl rfl
     (s.nodes.map toEntry) []
@@ -158,29 +193,29 @@ theorem readWorking_spec (fill : Inst → Inst) (hfill : FillOk fill) (asev : In
 /-- Reading back a saved session restores exactly the instances not marked deleted, in order, with the same ids, types,
     values (every reference included) **and editing states** — whatever the attribute-level reader thinks of the
     values (`asev`: e.g. required attributes still missing). Strict mode / nothing to substitute: `fill = id`. -/
-theorem C16_roundtrip (asev : Inst → Sev) (s : Sess) (hs : Inv s) (hn : NoNoState s) (hc : ClosedLive s) :
+theorem C16_roundtrip (asev : Inst → Sev) (s : Sess) (hs : Inv s) (hn : NoNoState s) (hc : ClosedLive s) (hd : DelBound s) :
     (readWorking id asev (writeWorking s)).nodes = live s := by
-  rw [(readWorking_spec id fillOk_id asev s hs hn hc).1]
+  rw [(readWorking_spec id fillOk_id asev s hs hn hc hd).1]
   simp
 
 /-- lenient mode: the same, up to the substitution C15 describes (unset required INTEGER/REAL/NUMBER/STRING) -/
 theorem C16_roundtrip_fill (fill : Inst → Inst) (hfill : FillOk fill) (asev : Inst → Sev) (s : Sess)
-    (hs : Inv s) (hn : NoNoState s) (hc : ClosedLive s) :
+    (hs : Inv s) (hn : NoNoState s) (hc : ClosedLive s) (hd : DelBound s) :
     (readWorking fill asev (writeWorking s)).nodes = (live s).map (fun n => ⟨fill n.inst, n.state⟩) :=
-  (readWorking_spec fill hfill asev s hs hn hc).1
+  (readWorking_spec fill hfill asev s hs hn hc hd).1
 
 /-- exactly the instances marked deleted are left out -/
-theorem C16_deleted_exact (asev : Inst → Sev) (s : Sess) (hs : Inv s) (hn : NoNoState s) (hc : ClosedLive s) (n : Node) :
+theorem C16_deleted_exact (asev : Inst → Sev) (s : Sess) (hs : Inv s) (hn : NoNoState s) (hc : ClosedLive s) (hd : DelBound s) (n : Node) :
     n ∈ (readWorking id asev (writeWorking s)).nodes ↔ n ∈ s.nodes ∧ n.state ≠ .delete := by
-  rw [C16_roundtrip asev s hs hn hc]
+  rw [C16_roundtrip asev s hs hn hc hd]
   simp [live, isLive]
 
-theorem inv_readWorking (asev : Inst → Sev) (s : Sess) (hs : Inv s) (hn : NoNoState s) (hc : ClosedLive s) :
+theorem inv_readWorking (asev : Inst → Sev) (s : Sess) (hs : Inv s) (hn : NoNoState s) (hc : ClosedLive s) (hd : DelBound s) :
     Inv (readWorking id asev (writeWorking s)) ∧ NoNoState (readWorking id asev (writeWorking s)) ∧
     ClosedLive (readWorking id asev (writeWorking s)) ∧
     live (readWorking id asev (writeWorking s)) = (readWorking id asev (writeWorking s)).nodes := by
-  have hnodes := C16_roundtrip asev s hs hn hc
-  have hmax := (readWorking_spec id fillOk_id asev s hs hn hc).2
+  have hnodes := C16_roundtrip asev s hs hn hc hd
+  have hmax := (readWorking_spec id fillOk_id asev s hs hn hc hd).2
   have hlive : live (readWorking id asev (writeWorking s)) = (readWorking id asev (writeWorking s)).nodes := by
     unfold live; rw [hnodes]; unfold live; rw [List.filter_filter]; simp
   refine ⟨⟨?_, ?_, ?_⟩, ?_, ?_, hlive⟩
@@ -195,11 +230,11 @@ theorem inv_readWorking (asev : Inst → Sev) (s : Sess) (hs : Inv s) (hn : NoNo
 
 /-- Saving again: the second file is the first one without its `D` entries (they recorded deletions that are now
     carried out) … -/
-theorem C16_second_save (asev : Inst → Sev) (s : Sess) (hs : Inv s) (hn : NoNoState s) (hc : ClosedLive s) :
+theorem C16_second_save (asev : Inst → Sev) (s : Sess) (hs : Inv s) (hn : NoNoState s) (hc : ClosedLive s) (hd : DelBound s) :
     writeWorking (readWorking id asev (writeWorking s)) =
       (writeWorking s).filter (fun e => e.letter ≠ writeLetterOf .delete) := by
-  have h2 := inv_readWorking asev s hs hn hc
-  rw [writeWorking_eq h2.2.1, C16_roundtrip asev s hs hn hc, writeWorking_eq hn]
+  have h2 := inv_readWorking asev s hs hn hc hd
+  rw [writeWorking_eq h2.2.1, C16_roundtrip asev s hs hn hc hd, writeWorking_eq hn]
   unfold live
   induction s.nodes with
   | nil => rfl
@@ -209,10 +244,10 @@ theorem C16_second_save (asev : Inst → Sev) (s : Sess) (hs : Inv s) (hn : NoNo
 
 /-- … so when nothing is marked deleted the second save is the first one, entry for entry (byte for byte, the time
     stamp of the header aside) … -/
-theorem C16_idempotent (asev : Inst → Sev) (s : Sess) (hs : Inv s) (hn : NoNoState s) (hc : ClosedLive s)
+theorem C16_idempotent (asev : Inst → Sev) (s : Sess) (hs : Inv s) (hn : NoNoState s) (hc : ClosedLive s) (hd : DelBound s)
     (hnd : ∀ n ∈ s.nodes, n.state ≠ .delete) :
     writeWorking (readWorking id asev (writeWorking s)) = writeWorking s := by
-  rw [C16_second_save asev s hs hn hc, writeWorking_eq hn]
+  rw [C16_second_save asev s hs hn hc hd, writeWorking_eq hn]
   apply List.filter_eq_self.mpr
   intro e he
   simp only [List.mem_map] at he
@@ -222,21 +257,21 @@ theorem C16_idempotent (asev : Inst → Sev) (s : Sess) (hs : Inv s) (hn : NoNoS
   cases hst : n.state <;> simp_all [toEntry, writeLetterOf]
 
 /-- … and from the second save on every further save/load cycle reproduces the file, whatever the first session held -/
-theorem C16_cycles (asev : Inst → Sev) (s : Sess) (hs : Inv s) (hn : NoNoState s) (hc : ClosedLive s) :
+theorem C16_cycles (asev : Inst → Sev) (s : Sess) (hs : Inv s) (hn : NoNoState s) (hc : ClosedLive s) (hd : DelBound s) :
     let s1 := readWorking id asev (writeWorking s)
     writeWorking (readWorking id asev (writeWorking s1)) = writeWorking s1 ∧
     (readWorking id asev (writeWorking s1)).nodes = s1.nodes := by
   intro s1
-  have h2 := inv_readWorking asev s hs hn hc
+  have h2 := inv_readWorking asev s hs hn hc hd
   have hnd : ∀ n ∈ s1.nodes, n.state ≠ .delete := by
     intro n hnm
     have : n ∈ live s1 := by rw [h2.2.2.2]; exact hnm
     simpa [live, isLive] using (List.mem_filter.mp this).2
-  refine ⟨C16_idempotent asev s1 h2.1 h2.2.1 h2.2.2.1 hnd, ?_⟩
-  rw [C16_roundtrip asev s1 h2.1 h2.2.1 h2.2.2.1, h2.2.2.2]
+  refine ⟨C16_idempotent asev s1 h2.1 h2.2.1 h2.2.2.1 (delBound_of_no_deleted hnd) hnd, ?_⟩
+  rw [C16_roundtrip asev s1 h2.1 h2.2.1 h2.2.2.1 (delBound_of_no_deleted hnd), h2.2.2.2]
 
 /-- ids, types and values are the ones an exchange-file round trip of the surviving population gives -/
-theorem C16_same_as_exchange (asev : Inst → Sev) (s : Sess) (hs : Inv s) (hn : NoNoState s) (hc : ClosedLive s) :
+theorem C16_same_as_exchange (asev : Inst → Sev) (s : Sess) (hs : Inv s) (hn : NoNoState s) (hc : ClosedLive s) (hd : DelBound s) :
     (readWorking id asev (writeWorking s)).nodes.map (·.inst) =
       (readExchange id noSev (writeExchange ⟨live s, s.maxId⟩)).nodes.map (·.inst) := by
   have hconf : Conf (writeExchange ⟨live s, s.maxId⟩) := by
@@ -252,7 +287,7 @@ theorem C16_same_as_exchange (asev : Inst → Sev) (s : Sess) (hs : Inv s) (hn :
       obtain ⟨n, hnl, rfl⟩ := hi
       have := hc n hnl r hr
       simpa [writeExchange, ids] using this
-  rw [(C14_read _ hconf).1, C16_roundtrip asev s hs hn hc]
+  rw [(C14_read _ hconf).1, C16_roundtrip asev s hs hn hc hd]
   simp [writeExchange, Function.comp_def]
 
 /-! ### the whole file: HEADER section and instance comments -/
@@ -272,6 +307,13 @@ theorem ids_strip (wc : Bool) (ns : List Node) : ids (ns.map (stripNode wc)) = i
 theorem live_strip (wc : Bool) (s : Sess) : live (stripSess wc s) = (live s).map (stripNode wc) := by
   simp only [live, stripSess, List.filter_map]
   congr 1
+
+theorem delBound_strip (wc : Bool) {s : Sess} (h : DelBound s) : DelBound (stripSess wc s) := by
+  unfold DelBound at *
+  have : ((stripSess wc s).nodes.filter (fun n => !isLive n)).length = (s.nodes.filter (fun n => !isLive n)).length := by
+    simp only [stripSess, List.filter_map, List.length_map]
+    congr 1
+  rw [this]; exact h
 
 theorem writeWorking_strip (wc : Bool) (s : Sess) :
     (writeWorking s).map (fun e => { e with inst := stripComment wc e.inst }) = writeWorking (stripSess wc s) := by
@@ -305,34 +347,34 @@ theorem closedLive_strip (wc : Bool) {s : Sess} (h : ClosedLive s) : ClosedLive 
     order with ids, types, values, references, states and — when comments were written — their Part 21 comments; the
     HEADER section is the saved one. -/
 theorem C16_file_roundtrip (wc : Bool) (asev : Inst → Sev) (prev s : FSess)
-    (hs : Inv s.sess) (hn : NoNoState s.sess) (hc : ClosedLive s.sess) :
+    (hs : Inv s.sess) (hn : NoNoState s.sess) (hc : ClosedLive s.sess) (hd : DelBound s.sess) :
     (readWorkingFile id asev prev (writeWorkingFile wc s)).sess.nodes = (live s.sess).map (stripNode wc) ∧
     (readWorkingFile id asev prev (writeWorkingFile wc s)).header = s.header := by
   constructor
   · simp only [readWorkingFile, writeWorkingFile]
-    rw [writeWorking_strip, C16_roundtrip asev _ (inv_strip wc hs) (noNoState_strip wc hn) (closedLive_strip wc hc), live_strip]
+    rw [writeWorking_strip, C16_roundtrip asev _ (inv_strip wc hs) (noNoState_strip wc hn) (closedLive_strip wc hc) (delBound_strip wc hd), live_strip]
   · have h1 : readWorkingClearsHeader = true := rfl
     simp [readWorkingFile, writeWorkingFile, mergeHeader, h1]
     intro h; exact absurd h (by decide)
 
 /-- with comments written (the default) nothing at all is lost: the session is the not-deleted part of the saved one -/
 theorem C16_file_roundtrip_comments (asev : Inst → Sev) (prev s : FSess)
-    (hs : Inv s.sess) (hn : NoNoState s.sess) (hc : ClosedLive s.sess) :
+    (hs : Inv s.sess) (hn : NoNoState s.sess) (hc : ClosedLive s.sess) (hd : DelBound s.sess) :
     (readWorkingFile id asev prev (writeWorkingFile true s)).sess.nodes = live s.sess := by
-  rw [(C16_file_roundtrip true asev prev s hs hn hc).1]
+  rw [(C16_file_roundtrip true asev prev s hs hn hc hd).1]
   have : ∀ n : Node, stripNode true n = n := fun n => by cases n; rfl
   have h2 : (live s.sess).map (stripNode true) = (live s.sess).map id := List.map_congr_left (fun n _ => this n)
   rw [h2, List.map_id]
 
 /-- saving again (same `writeComments`): header identical, entries identical except that the `D` entries are gone -/
 theorem C16_file_second_save (wc : Bool) (asev : Inst → Sev) (prev s : FSess)
-    (hs : Inv s.sess) (hn : NoNoState s.sess) (hc : ClosedLive s.sess) :
+    (hs : Inv s.sess) (hn : NoNoState s.sess) (hc : ClosedLive s.sess) (hd : DelBound s.sess) :
     (writeWorkingFile wc (readWorkingFile id asev prev (writeWorkingFile wc s))).header = s.header ∧
     (writeWorkingFile wc (readWorkingFile id asev prev (writeWorkingFile wc s))).entries =
       (writeWorkingFile wc s).entries.filter (fun e => e.letter ≠ writeLetterOf .delete) := by
-  have hr := C16_file_roundtrip wc asev prev s hs hn hc
+  have hr := C16_file_roundtrip wc asev prev s hs hn hc hd
   refine ⟨hr.2, ?_⟩
-  have h2 := C16_second_save asev (stripSess wc s.sess) (inv_strip wc hs) (noNoState_strip wc hn) (closedLive_strip wc hc)
+  have h2 := C16_second_save asev (stripSess wc s.sess) (inv_strip wc hs) (noNoState_strip wc hn) (closedLive_strip wc hc) (delBound_strip wc hd)
   have hsess : (readWorkingFile id asev prev (writeWorkingFile wc s)).sess =
       readWorking id asev (writeWorking (stripSess wc s.sess)) := by
     simp only [readWorkingFile, writeWorkingFile, writeWorking_strip]
@@ -384,6 +426,17 @@ open StepModel.P21 StepModel.P21.RLemmas StepModel.SkipEntry in
 example : EntryText ([35, 50, 61, 73, 40] ++ ((47 :: 42 :: ([59] ++ [42, 47])) ++ [49, 41])) :=
   .plain (by decide) (.plain (by decide) (.plain (by decide) (.plain (by decide) (.plain (by decide)
     (.comment (by decide) (.plain (by decide) (.plain (by decide) .nil)))))))
+
+/-- why `DelBound` is there: every `D` entry counts towards pass 1's abort rule, so with more than `maxErrorCount` of them in front of
+    the first live entry pass 1 is abandoned before anything is created — stated for the abort counter of the model:
+    after `maxErrorCount` counted records one more `D` entry ends the pass, whatever follows (seed C16-d1's class, and the
+    real code at 100001 deleted entries: severity EXIT, empty population) -/
+theorem C16_too_many_deleted_witness (hflag : deletedCountsAsFailure = true) (k : Int) (s : Sess) (e : Entry) (es : List Entry)
+    (he : skipped .working e = true) :
+    pass1Go .working k maxErrorCount s (e :: es) = s := by
+  have hf : failsPass1 .working k s e = true := by simp [failsPass1, he, hflag]
+  have hst : pass1Step .working k s e = s := by simp [pass1Step, he]
+  simp [pass1Go, hf, hst]
 
 /-- `noStateSE` is not an editing state: such a node is not written at all (with a message) and is therefore lost.
     The property quantifies over complete / incomplete / new / deleted, so this is outside it; recorded as a witness. -/
